@@ -235,12 +235,92 @@ macro_rules! opt_elem {
 opt_elem!(i32);
 opt_elem!(u8);
 
+/// A record ordered by its key only: two elements can compare equal and still
+/// be different elements. Arithmetic acts on the key and keeps the left tag.
+#[derive(Clone, Copy, Debug)]
+pub struct Keyed {
+    pub key: i32,
+    pub tag: u32,
+}
+impl PartialEq for Keyed {
+    fn eq(&self, o: &Keyed) -> bool {
+        self.key == o.key
+    }
+}
+impl Eq for Keyed {}
+impl PartialOrd for Keyed {
+    fn partial_cmp(&self, o: &Keyed) -> Option<std::cmp::Ordering> {
+        Some(self.cmp(o))
+    }
+}
+impl Ord for Keyed {
+    fn cmp(&self, o: &Keyed) -> std::cmp::Ordering {
+        self.key.cmp(&o.key)
+    }
+}
+macro_rules! keyed_op {
+    ($tr:ident, $f:ident, $w:ident) => {
+        impl std::ops::$tr for Keyed {
+            type Output = Keyed;
+            fn $f(self, o: Keyed) -> Keyed {
+                Keyed { key: self.key.$w(o.key), tag: self.tag }
+            }
+        }
+    };
+}
+keyed_op!(Add, add, wrapping_add);
+keyed_op!(Sub, sub, wrapping_sub);
+keyed_op!(Mul, mul, wrapping_mul);
+impl std::ops::Div for Keyed {
+    type Output = Keyed;
+    fn div(self, o: Keyed) -> Keyed {
+        Keyed { key: if o.key == 0 { 0 } else { self.key.wrapping_div(o.key) }, tag: self.tag }
+    }
+}
+impl std::ops::Rem for Keyed {
+    type Output = Keyed;
+    fn rem(self, o: Keyed) -> Keyed {
+        Keyed { key: if o.key == 0 { 0 } else { self.key.wrapping_rem(o.key) }, tag: self.tag }
+    }
+}
+impl FromPrimitive for Keyed {
+    fn from_i64(n: i64) -> Option<Keyed> {
+        Some(Keyed { key: n as i32, tag: 0 })
+    }
+    fn from_u64(n: u64) -> Option<Keyed> {
+        Some(Keyed { key: n as i32, tag: 0 })
+    }
+}
+impl ToPrimitive for Keyed {
+    fn to_i64(&self) -> Option<i64> {
+        Some(self.key as i64)
+    }
+    fn to_u64(&self) -> Option<u64> {
+        Some(self.key as u64)
+    }
+}
+impl Elem for Keyed {
+    const TY: ElemTy = ElemTy::Keyed;
+    fn from_raw(r: i64) -> Self {
+        Keyed { key: (r >> 32) as i32, tag: (r & 0xffff_ffff) as u32 }
+    }
+    fn to_raw(&self) -> i64 {
+        ((self.key as i64) << 32) | self.tag as i64
+    }
+}
+impl OrdElem for Keyed {
+    fn num(&self) -> NumVal {
+        NumVal::I(self.key as i128)
+    }
+}
+
 /// numeric value of a raw encoding, for reference computations
 pub fn num_of_raw(ty: ElemTy, raw: i64) -> NumVal {
     match ty {
         ElemTy::N64 | ElemTy::F64 => NumVal::F(f64::from_bits(raw as u64)),
         ElemTy::F32 => NumVal::F(f32::from_bits(raw as u32) as f64),
         ElemTy::U64 => NumVal::I(raw as u64 as i128),
+        ElemTy::Keyed => NumVal::I((raw >> 32) as i128),
         _ => NumVal::I(raw as i128),
     }
 }
